@@ -128,6 +128,51 @@ fn main() {
             let ph = api::Val::dec(&args[3]).expect("placeholder");
             println!("{}", api::eval(ev, &args[4], &ph).enc());
         }
+        "gencases" => {
+            // case file for C17 (feature subsets): regression corpus + seeded random expressions per evaluator
+            use proptest::strategy::{Strategy, ValueTree};
+            let seed: u64 = arg_after(&args, "--seed").and_then(|s| s.parse().ok()).unwrap_or(0);
+            let count: u64 = arg_after(&args, "--count").and_then(|s| s.parse().ok()).unwrap_or(2000);
+            let mut lines: Vec<String> = Vec::new();
+            let mut push = |ev: api::Ev, ph: &api::Val, input: &str| {
+                lines.push(format!("{}\t{}\t{}", ev.name(), ph.enc(), serde_json::to_string(input).unwrap()));
+            };
+            for id in ["C01", "C02", "C03", "C09", "C11", "C15", "C18"] {
+                for (_, c) in load_corpus(id) {
+                    if c.ph.fits(c.ev) && !c.input.starts_with("0x") && !c.input.starts_with("history") {
+                        push(c.ev, &c.ph, &c.input);
+                    }
+                }
+            }
+            for ev in api::Ev::ALL {
+                for s in ["1+2*3", "(2+3)/2", "2^3!", "-2^2", "6/2(3)", "2(3)^2(4)", "min(1,2,3)", "avg()", "5!", "sqrt(16)", "abs(-3)+pow(2,10)", "1<<2+1", "6&3|1", "2²+3³", "⌊2.5⌋+⌈2.5⌉", "pi*e", "90°", "1rad", "(1+2i)*(3-i)", "w(1)", "ilog(100,10)", "@+1", "1)", "2pi"] {
+                    push(ev, &api::Val::default_for(ev), s);
+                }
+            }
+            let cfg = proptest::test_runner::Config { failure_persistence: None, ..Default::default() };
+            let rng = proptest::test_runner::TestRng::from_seed(proptest::test_runner::RngAlgorithm::ChaCha, &util::seed_bytes(seed, "C17", "cases", 0));
+            let mut runner = proptest::test_runner::TestRunner::new_with_rng(cfg, rng);
+            let strat = proptest::collection::vec(proptest::prelude::any::<u16>(), 100..160);
+            let c01 = props::by_id("C01").unwrap();
+            let c12 = props::by_id("C12").unwrap();
+            let mut n = 0;
+            while n < count {
+                let seq = strat.new_tree(&mut runner).unwrap().current();
+                let mut c = choice::Seq::new(&seq);
+                let case = match n % 4 {
+                    0 => c01.gen("mutant", &mut c),
+                    1 => c12.gen("tree", &mut c),
+                    _ => c01.gen("tree", &mut c),
+                };
+                if let Some(case) = case {
+                    push(case.ev, &case.ph, &case.input);
+                }
+                n += 1;
+            }
+            for l in lines {
+                println!("{}", l);
+            }
+        }
         "selftest" => {
             props::selftest();
         }
